@@ -150,6 +150,7 @@ def make_scenario(rnd, counts, nues_choices=None, fault=None, opts=None):
             ue["optIEs"] = (d + u) % 3
             ue["encPrio"], ue["intPrio"] = [[1, 2, 0], [0], [2, 1, 0]][(d + u) % 3], [[1, 2], [2, 1], [2]][(d + u) % 3]
             ue["ngksi"] = [0, 6, 3, 1, 5][(d + u) % 5]
+            ue["sqnZero"] = [1, 0, 2][(d + u) % 3]          # leading zero octets of the concealed SQN in AUTN
             ue["amfField"] = [[0x80, 0], [0, 0], [0xff, 0xff]][(d + u) % 3]
             if (d + 2 * u) % 3 < 2:
                 ue["sqn"] = [[0, 0, 0, 0, 0, 1], [255] * 6][(d + 2 * u) % 3]
